@@ -24,7 +24,7 @@ theorem checkLen_ok_unit {o : Opts} {b : Bounds} {n : Nat} {u : Unit} (h : check
     checkLen o b n = .ok () := h
 
 theorem wrapU32_natCast (c : Nat) (hc : c < 2 ^ 32) : wrapU 32 (c : Int) = (c : Int) := by
-  apply wrapU_of_inU
+  apply wrapU_of_inU (Or.inr (Or.inr rfl))
   have h32 : (2 : Nat) ^ 32 = 4294967296 := by decide
   simp only [inU, pow2, Bool.and_eq_true, decide_eq_true_eq, h32] at hc ⊢
   omega
@@ -92,7 +92,10 @@ theorem toNat_wrapU32 (c : Nat) (hc : c < 2 ^ 32) : (wrapU 32 (c : Int)).toNat =
 theorem wrapS_of_inS {w : Nat} (hw : w = 8 ∨ w = 16 ∨ w = 32) {n : Int} (h : inS w n = true) :
     wrapS w n = n := by
   simp only [inS, Bool.and_eq_true, decide_eq_true_eq] at h
-  rcases hw with rfl | rfl | rfl <;> simp only [wrapS, pow2] at h ⊢ <;> omega
+  rcases hw with rfl | rfl | rfl <;> simp only [wrapS, cvt, pow2] at h ⊢ <;>
+    (simp only [Nat.reduceSub, Nat.reducePow]
+     rw [if_pos (by omega)]
+     omega)
 
 mutual
 theorem rt_ty : ∀ (t : JTy) (v : Val) (j : Json), expressible t = true → valOk fc t v = true →
@@ -120,7 +123,10 @@ theorem rt_ty : ∀ (t : JTy) (v : Val) (j : Json), expressible t = true → val
       simp [mapDecode, asStr, parseDec_decStr, ofOpt, hlt, hn]
     · simp only [hw, if_false, Except.ok.injEq] at h
       subst h
-      simp [mapDecode, hw, wrapU_of_inU hv]
+      have hw' : w = 8 ∨ w = 16 ∨ w = 32 := by
+        simp only [expressible, Bool.or_eq_true, decide_eq_true_eq] at hx
+        omega
+      simp [mapDecode, hw, wrapU_of_inU hw' hv]
   | .int w, v, j, hx, hv, h => by
     cases v <;> simp only [valOk, Bool.false_eq_true] at hv
     rename_i n
